@@ -146,6 +146,12 @@ def check_tree(rec, model, source, out, info=None, scale=1):
     if rec["accept"][d]:
         accepted_run(np.array(names_full[:d]), "user-names-ndarray", exp_named)
         ncmp += 1
+        # names are arbitrary text: characters that mean something to a formatting routine are printed as they are
+        awkward = ["100%", "%s", "{0}", "a {b} %d", "x\\y", "\u00e9 <", "%(n)s", "}{"]
+        awk = [awkward[(i + len(rec["feat"])) % len(awkward)] + (str(i) if i >= len(awkward) else "") for i in range(d)]
+        ren = dict(zip(names_full[:d], awk))
+        accepted_run(awk, "user-names-awkward", [dict(t, name=ren[t["name"]]) if "name" in t else t for t in exp_named])
+        ncmp += 1
     return ncmp
 
 
